@@ -497,6 +497,19 @@ func genC11(g *gen) {
 	}
 	g.kernelMatrix(cmpOps, true, []string{"safe", "same", "unsafe", "reuse-bool", "reuse-same"})
 	g.scalarTensorMatrix([]string{"lt", "gte", "eq", "ne"}, []string{"f64", "i32", "u8", "i64"}, []string{"safe", "same", "unsafe", "reuse-same"})
+	// the destination's own layout: a same-type reuse tensor that is lazily transposed, a view, or column-major, with
+	// operands of every layout (the result must land at the destination's coordinates)
+	for _, op := range cmpOps {
+		for _, dest := range []string{"lazyT", "sliced", "colmajor"} {
+			for _, la := range []string{"contig", "lazyT", "sliced"} {
+				for _, kind := range []string{"TT", "TS", "ST"} {
+					g.forceVset = 3
+					g.binProgram(op, g.r.pick([]string{"f64", "i16", "u8", "i64"}), kind, g.r.pick([]string{"fn", "meth"}), []int{2, 3}, la, g.r.pick([]string{"contig", "lazyT"}), "reuse-same", dest)
+					g.forceVset = 0
+				}
+			}
+		}
+	}
 	for _, op := range cmpOps {
 		dts := ordDtypes
 		if op == "eq" || op == "ne" {
